@@ -48,6 +48,10 @@ E48 = TEnum("E48", INTS["uint48"], (("A", 1), ("B", 2)))  # enums are aligned li
 F24 = TEnum("F24", INTS["uint24"], (("P", 1), ("Q", 2)), flag=True)
 
 
+UN9 = TStruct("un9_t", (TField("a", INTS["uint64"]), TField("b", TArr(INTS["uint8"], 9))), union=True)  # largest member (9) is not a multiple of the alignment (8)
+UN5 = TStruct("un5_t", (TField("b", TArr(INTS["uint8"], 5)), TField("a", INTS["uint32"])), union=True)
+
+
 def layout_atoms():
     out = [A.atom(t) for t in INTS.values()] + [A.atom(t) for t in FLOATS.values()] + [A.atom(CHAR), A.atom(WCHAR), A.atom(A.E16s), A.atom(A.F32)]
     for t in (TArr(INTS["uint8"], 3), TArr(INTS["uint16"], 2), TArr(INTS["uint24"], 2), TArr(INTS["uint32"], 0), TArr(CHAR, 3), TArr(WCHAR, 2),
@@ -56,6 +60,7 @@ def layout_atoms():
     out += [A.atom(A.IN), A.atom(A.IN2), A.atom(A.NEST2), A.atom(A.UN), A.atom(UN8), A.atom(DEEP), A.atom(TPtr(INTS["uint8"])), A.atom(TPtr(A.IN)),
             A.atom(TArr(TPtr(INTS["uint16"]), 2))]
     out += [A.atom(ANONP), A.atom(TArr(ANONP, 2)), A.atom(ANONU), A.atom(ANONN)]
+    out += [A.atom(UN9), A.atom(UN5), A.atom(TArr(UN5, 2))]
     out += [A.atom(A.E24), A.atom(E48), A.atom(TArr(A.E24, 2))] + [A.atom(F24)]
     for a in out:
         A.register(a)
